@@ -1,11 +1,15 @@
 pub mod bloom;
 pub mod crdt;
+#[cfg(feature = "e_capi")]
+pub mod capi;
 #[cfg(feature = "e_richtext")]
 pub mod richtext;
 #[cfg(feature = "e_patches")]
 pub mod patches;
 #[cfg(feature = "e_crdtx")]
 pub mod crdtx;
+#[cfg(feature = "e_anon")]
+pub mod anon;
 #[cfg(feature = "e_hexane")]
 pub mod hexane;
 #[cfg(feature = "e_ids")]
@@ -16,6 +20,8 @@ pub mod recon;
 pub mod serde_cli;
 #[cfg(feature = "e_sync")]
 pub mod sync;
+#[cfg(feature = "e_codec")]
+pub mod codec;
 
 use crate::{rng::Rng, Out, Session};
 use std::collections::BTreeMap;
@@ -38,6 +44,12 @@ pub fn dispatch(sess: &mut Session, toks: &[&str]) -> Vec<String> {
         #[cfg(feature = "e_serde")]
         "serde" => serde_cli::exec(toks),
         "crdt" => crdt::exec(&mut sess.crdt, toks),
+        #[cfg(feature = "e_capi")]
+        "capi" => capi::exec(sess, toks),
+        #[cfg(feature = "e_codec")]
+        "codec" => codec::exec(toks),
+        #[cfg(feature = "e_anon")]
+        "anon" => anon::exec(&mut sess.crdt, toks),
         #[cfg(feature = "e_sync")]
         "sync" => sync::exec(&mut sess.sync, toks),
         _ => vec![format!("unknown-engine {}", engine)],
@@ -56,7 +68,13 @@ pub fn generate(engine: &str, r: &mut Rng, opts: &BTreeMap<String, String>, sess
         #[cfg(feature = "e_serde")]
         "serde" => serde_cli::generate(r, opts, sess, out),
         "crdt" => crdt::generate(r, opts, sess, out),
+        #[cfg(feature = "e_capi")]
+        "capi" => capi::generate(r, opts, sess, out),
+        #[cfg(feature = "e_codec")]
+        "codec" => codec::generate(r, opts, sess, out),
         "storage" => crdt::generate_storage(r, opts, sess, out),
+        #[cfg(feature = "e_anon")]
+        "anon" => anon::generate(r, opts, sess, out),
         #[cfg(feature = "e_richtext")]
         "richtext" => richtext::generate(r, opts, sess, out),
         #[cfg(feature = "e_patches")]
